@@ -2,6 +2,7 @@
 C01 — whole-tool part: where `_run_stub_generator` can fail.
 -/
 import StubGen.Proofs.Pipeline
+import StubGen.Theorems.C01
 
 namespace StubGen.C01b
 
@@ -20,6 +21,43 @@ theorem tool_error_sources {i : ToolInput} {e : PyErr} (h : runTool i = .error e
           (selectModules i.graph d) = .ok (r, ws) ∧
          (apiJsonText (pathStem root) r = .error e ∨ runGenerator (r.toApi (pathStem root)) i.safe i.preexisting = .error e)) :=
   pl_runTool_error h
+
+/-- END TO END (the generator half of totality lifted to the whole run): if the discovery keeps a module file, the walk
+    completes, the API serialises, and the API the walk produced lies in the decidable scope `Spec.Scope01` (every reached
+    type renderable and importable, every reached private superclass resolvable, nesting within the fuel), then the whole
+    run completes: the API file and every stub are written, whatever files are already in the output directory. -/
+theorem tool_completes (i : ToolInput) (root : PathParts) (d : Discovered) (r : AnaResult) (ws : List String) (text : String)
+    (hd : discoverSorted i.srcDir i.files i.isTestRun = .ok (root, d))
+    (ha : analyze { opts := i.opts, aliases := getAliases (pathStem root) i.aliasFacts, infoBases := i.infoBases } i.docRoot
+            (selectModules i.graph d) = .ok (r, ws))
+    (ht : apiJsonText (pathStem root) r = .ok text)
+    (hs : Spec.Scope01 (r.toApi (pathStem root)) = true) :
+    ∃ o, runTool i = .ok o ∧ o.api = r ∧ o.apiFileText = text := by
+  obtain ⟨gen, hg⟩ := C01.generator_total (r.toApi (pathStem root)) i.safe i.preexisting hs
+  refine ⟨{ packageName := pathStem root, analysed := (selectModules i.graph d).map (·.path),
+            aliases := getAliases (pathStem root) i.aliasFacts, api := r, warnings := ws,
+            apiFileName := pathStem i.srcDir ++ "__api.json", apiFileText := text, gen := gen }, ?_, rfl, rfl⟩
+  unfold runTool getApi
+  simp only [hd, ha, ht, hg]
+
+/-- … and when a run fails although discovery, walk and serialisation succeeded, the error is one of the generator's
+    (`ValueError`, `IndexError`, `LookupError`, fuel): never a `KeyError`, `TypeError`, `AttributeError`, `AssertionError` -/
+theorem tool_generator_errors (i : ToolInput) (root : PathParts) (d : Discovered) (r : AnaResult) (ws : List String) (text : String)
+    (e : PyErr)
+    (hd : discoverSorted i.srcDir i.files i.isTestRun = .ok (root, d))
+    (ha : analyze { opts := i.opts, aliases := getAliases (pathStem root) i.aliasFacts, infoBases := i.infoBases } i.docRoot
+            (selectModules i.graph d) = .ok (r, ws))
+    (ht : apiJsonText (pathStem root) r = .ok text)
+    (h : runTool i = .error e) :
+    e ∈ [PyErr.valueError, .indexError, .lookupError, .unsupported] := by
+  unfold runTool getApi at h
+  simp only [hd, ha, ht] at h
+  cases hg : runGenerator (r.toApi (pathStem root)) i.safe i.preexisting with
+  | ok gen => simp [hg] at h
+  | error e' =>
+    simp only [hg, Except.error.injEq] at h
+    subst h
+    exact C01.never_keyError _ _ _ _ hg
 
 /-- the only error of the discovery phase is the documented rejection (`ValueError("No files found to analyse.")`), and it
     is raised exactly when no module file is kept -/
